@@ -2,6 +2,7 @@
 from __future__ import annotations
 
 import copy
+import dataclasses
 import itertools
 import json
 
@@ -27,7 +28,9 @@ RULE = ("Hypothesis draws a type program (incl. std converted types and serializ
         "ValidationErrors with equal .errors; with no_copy=False the result shares no mutable container (by id) with the input, "
         "with any variant the input snapshot is unchanged.  Serialization variants: no_copy x check_type x {serialize, "
         "serialization_method} x 8 sampled PassThroughOptions (any, collections, dataclasses, enums, tuple, types): after "
-        "completion json.loads(json.dumps(out, default=serialization_default(same options))) must equal the baseline image.  "
+        "completion json.loads(json.dumps(out, default=serialization_default(same options))) must equal the baseline image; with no_copy=False and the "
+        "default PassThroughOptions the output shares no list / dict / set (by id) with the value, through objects too; fall_back_on_any is one of the "
+        "remaining options (30 % of the cases).  "
         "Non-trivial: the type mixes a copying node (float, set, tuple, object, enum) with a check-only node (str/int/bool list or "
         "mapping) and the datum/value has >= 1 container level.  Distinct = hash(type shape, datum/value shape, verdict).")
 ASSUMPTIONS = ["pure differential: no model; the baseline is the call with the library defaults",
@@ -53,7 +56,8 @@ def strategy_(draw, tier):
     cfg = {"max_depth": 3 if tier == "quick" else 4, "generics": True, "methods": True, "std": True, "lit_in_union": False, "unsup": False}
     prog = draw(gen.programs(cfg))
     opts = {"aliaser": pick(draw, ["id", "id", "camel", "pfx"]), "additional_properties": chance(draw, 0.25),
-            "fall_back_on_default": chance(draw, 0.15), "exclude_none": chance(draw, 0.25), "exclude_defaults": chance(draw, 0.25)}
+            "fall_back_on_default": chance(draw, 0.15), "exclude_none": chance(draw, 0.25), "exclude_defaults": chance(draw, 0.25),
+            "fall_back_on_any": chance(draw, 0.3)}
     data = []
     for _ in range(draw(st.integers(3, 6))):
         d, tag = gen.data_for(draw, prog, prog["root"], opts["aliaser"], (45, 30, 10, 15))
@@ -303,6 +307,9 @@ def _ser(case, ctx, b, prog, opts):
                "exclude_none": bool(opts.get("exclude_none")), "exclude_defaults": bool(opts.get("exclude_defaults"))}
     tp, root = b.root, prog["root"]
     default = serialization_default(**base_kw)
+    fb_any = bool(opts.get("fall_back_on_any"))  # one of the "remaining options": changes nothing for well-typed values
+    if fb_any:
+        base_kw["fall_back_on_any"] = True
     first_cls = getattr(b.module, prog["classes"][0]["name"]) if prog["classes"] and prog["classes"][0]["flavor"] != "typeddict" else None
     for vc in case["values"]:
         ctx.count()
@@ -361,6 +368,13 @@ def _ser(case, ctx, b, prog, opts):
                                       f"{variant}: json.dumps(default=serialization_default) failed: {e!r} on {got[1]!r}"[:700])
                         bad = True
                         break
+                    if not no_copy and pti == 0 and not with_types:
+                        shared = value_container_ids(real) & hostile.container_ids(got[1])
+                        if shared:
+                            ctx.violation({"side": "serialization", "kind": "shares_container_with_input", "fall_back_on_any": fb_any}, single,
+                                          f"{variant}: no_copy=False but the result {got[1]!r} shares {len(shared)} mutable container(s) with the value {real!r}"[:700])
+                            bad = True
+                            break
                     if not _img_eq(base_img, img):
                         ctx.violation({"side": "serialization", "kind": "variant_differs", "pass_through": sorted(ptkw), "no_copy": no_copy, "check_type": check_type},
                                       single, f"baseline {tdcase.compact(base_img, 300)}\n{variant} -> {tdcase.compact(img, 300)}")
@@ -376,6 +390,26 @@ def _ser(case, ctx, b, prog, opts):
             ctx.nontriv(["ser", tdcase.shape(root, prog), vshape(vc), case["pt"]])
             ctx.sample({"side": "serialization", "type": b.source.split("ROOT = ")[-1].strip(), "value": repr(real)[:200], "image": base_img,
                         "pass_through_variants": [PT_VARIANTS[i] for i in case["pt"]]})
+
+
+def value_container_ids(x, acc=None, depth=0) -> set:
+    """ids of the mutable containers (list / dict / set) reachable from a typed value, through objects too."""
+    acc = set() if acc is None else acc
+    if depth > 100:
+        return acc
+    if isinstance(x, (list, dict, set)):
+        acc.add(id(x))
+    if isinstance(x, dict):
+        for k, y in x.items():
+            value_container_ids(k, acc, depth + 1)
+            value_container_ids(y, acc, depth + 1)
+    elif isinstance(x, (list, set, frozenset, tuple)) or type(x).__name__ == "deque":
+        for y in x:
+            value_container_ids(y, acc, depth + 1)
+    elif dataclasses.is_dataclass(x) and not isinstance(x, type):
+        for y in vars(x).values():
+            value_container_ids(y, acc, depth + 1)
+    return acc
 
 
 def _img_eq(a, b) -> bool:
